@@ -55,6 +55,7 @@ class VC:
         self.options = dict(div_check=True)
         self.options.update(options or {})
         self.obligations = []
+        self.taints = []
         self.exits = []                     # (kind, value, path_id) for every completed path
         self.worklist = []
         self.n_paths = 0
@@ -80,6 +81,7 @@ class VC:
         self.path_id = self.n_paths
         self.snap = {}
         self._kind_count = {}
+        self.taints = []
 
     def fresh(self, name, sort):
         return z3.Const('%s!%d' % (name, next(self._counter)), sort)
@@ -107,6 +109,8 @@ class VC:
         goal = _z(goal)
         if expect == 'unsat' and z3.is_true(goal) and not kind.startswith(('post', 'raises')):
             return
+        if self.taints:
+            tags = tuple(tags) + tuple('overapprox:' + w for w in self.taints)
         o = Obligation(self.func, kind, list(self.pc), goal, note, self.path_id, expect, tags)
         n = self._kind_count.get(kind, 0)
         self._kind_count[kind] = n + 1
@@ -115,6 +119,13 @@ class VC:
             return
         self._sigs.add(o.sig)
         self.obligations.append(o)
+
+    def taint(self, why):
+        """the rest of this path relies on an OVER-APPROXIMATION of reachable state (e.g. arbitrary content of a memo an
+        edit introduced, for which no representation invariant is known): an obligation that fails from here on is
+        undecided, not refuted, unless the bounded stand-in replays a failing input on the real code"""
+        if why not in self.taints:
+            self.taints.append(why)
 
     def cut(self, name, fact):
         """ghost assertion: prove `fact` here (obligation lemma-step[name]), then use it"""
